@@ -1,11 +1,115 @@
 ----------------------------- MODULE Known_Seq -----------------------------
-(* Named deviation actions for the recorded known findings of property C10 on the *)
+(* Event binding of the vector contract (TransV, PostV: shared by the trace          *)
+(* specification and the deviations) and the                                        *)
+(* named deviation actions for the recorded known findings of property C10 on the   *)
 (* vector subjects (see /verif/known_findings.json).  A deviation is enabled only  *)
 (* for the listed subject and only under its semantic trigger; in KF mode a        *)
 (* deviation whose guard holds REPLACES the contract action for that event.        *)
 EXTENDS Seq
 
-KnownIds == {}
+KnownIds == {"C10-KF9", "C10-KF10", "C10-KF11"}
+
+(* the state change an event claims *)
+TransV(e, subj, first) ==
+    LET D == e.dropped
+        B == Elems(e.born) IN
+    \/ e.op = "push"   /\ e.ok  /\ Push(e.o, e.x, D, B)
+    \/ e.op = "push"   /\ ~e.ok /\ PushRefused(e.o, e.x, D, B)
+    \/ e.op = "pop"    /\ Pop(e.o, e.r, D, B)
+    (* a vector opened read-only refuses every mutation, pop included (documented) *)
+    \/ e.op = "pop"    /\ subj.readonly /\ e.r = None /\ Maintenance(e.o, D, B)
+    \/ e.op = "insert" /\ e.ok  /\ Insert(e.o, e.i, e.x, D, B)
+    \/ e.op = "insert" /\ ~e.ok /\ InsertRefused(e.o, e.i, e.x, D, B)
+    \/ e.op = "remove" /\ e.ok  /\ Len(e.r) = 1 /\ Remove(e.o, e.i, e.r[1], D, B)
+    \/ e.op = "remove" /\ ~e.ok /\ RemoveRefused(e.o, e.i, D, B)
+    \/ e.op = "set"    /\ e.ok  /\ Set(e.o, e.i, e.x, D, B)
+    \/ e.op = "set"    /\ ~e.ok /\ SetRefused(e.o, e.i, e.x, D, B)
+    \/ e.op = "resize" /\ e.ok  /\ Resize(e.o, e.n, e.x, e.post.c, D, B)
+    \/ e.op = "resize" /\ ~e.ok /\ ResizeRefused(e.o, e.n, e.x, D, B)
+    \/ e.op = "extend_move"  /\ e.ok  /\ ExtendMove(e.o, e.xs, D, B)
+    \/ e.op = "extend_move"  /\ ~e.ok /\ ExtendRefused(e.o, e.xs, TRUE, D, B)
+    \/ e.op = "extend_clone" /\ e.ok  /\ ExtendClone(e.o, e.xs, e.post.c, D, B)
+    \/ e.op = "extend_clone" /\ ~e.ok /\ ExtendRefused(e.o, e.xs, FALSE, D, B)
+    \/ e.op = "fill"     /\ e.ok  /\ Fill(e.o, e.a, e.b, e.x)
+    \/ e.op = "fill"     /\ ~e.ok /\ Maintenance(e.o, D, B)
+    \/ e.op = "clear"    /\ e.ok  /\ Clear(e.o, D, B)
+    \/ e.op = "clear"    /\ ~e.ok /\ Maintenance(e.o, D, B)
+    \/ e.op = "truncate" /\ e.ok  /\ Truncate(e.o, e.n, D, B)
+    \/ e.op = "truncate" /\ ~e.ok /\ Maintenance(e.o, D, B)
+    \/ e.op = "pop_tail" /\ e.ok  /\ PopTail(e.o, e.n, e.r, D, B)
+    \/ e.op = "pop_tail" /\ ~e.ok /\ Maintenance(e.o, D, B)
+    \/ e.op = "maintenance" /\ Maintenance(e.o, D, B)
+    \/ e.op = "resize_with" /\ e.ok  /\ ResizeWith(e.o, e.n, e.xs, D, B)
+    \/ e.op = "resize_with" /\ ~e.ok /\ ResizeWithRefused(e.o, e.xs, D, B)
+    \/ e.op = "copy_from" /\ e.ok  /\ CopyFrom(e.o, e.xs)
+    \/ e.op = "copy_from" /\ ~e.ok /\ Maintenance(e.o, D, B)
+    \/ e.op = "new_sized" /\ e.ok  /\ NewSized(e.o2, e.n, e.x, e.post.c, D, B)
+    \/ e.op = "new_sized" /\ ~e.ok /\ NewSizedRefused(e.x, D, B)
+    \/ e.op = "new_empty" /\ e.ok  /\ NewEmpty(e.o2, D, B)
+    \/ e.op = "new_empty" /\ ~e.ok /\ Maintenance(e.o, D, B)
+    \/ e.op = "adopt" /\ first /\ Adopt(e.o, e.post.c)    \* only as the first event of a run
+    \/ e.op = "compare" /\ e.ok  /\ Compare(e.o, e.o2, e.a, e.b, e.r)
+    \/ e.op = "compare" /\ ~e.ok /\ Maintenance(e.o, D, B)
+    \/ e.op = "clone" /\ e.ok /\ Clone(e.o, e.o2, e.post.c, D, B)
+    \/ e.op = "clone" /\ ~e.ok /\ Maintenance(e.o, D, B)
+    \/ e.op = "drop"  /\ DropContainer(e.o, D, B)
+
+(* what the object shows after the call must be the new abstract state *)
+PostV(e) ==
+    \/ e.op = "drop"
+    \/ e.op \in {"clone", "new_sized", "new_empty"} /\ e.ok /\ ObsSeq(seqs'[e.o2], e.post) /\ ObsSeq(seqs'[e.o], e.src)
+    \/ e.op \in {"clone", "new_sized", "new_empty"} /\ ~e.ok /\ ObsSeq(seqs'[e.o], e.post)
+    \/ e.op = "compare" /\ ObsSeq(seqs'[e.o], e.post) /\ ObsSeq(seqs'[e.o2], e.src)
+    \/ e.op \notin {"drop", "clone", "new_sized", "new_empty", "compare"} /\ ObsSeq(seqs'[e.o], e.post)
+
+Zs(n) == [i \in 1..n |-> <<0, 0>>]
+
+(* C10-KF9: FastVec::copy_from_slice_fast(src) returns Ok at once for an empty source and      *)
+(* leaves the old content in place, while every non-empty source replaces the content (len :=   *)
+(* src.len()).  Trigger: a successful copy_from with an empty source on a non-empty vector that *)
+(* still shows its old content.  Nothing changes.                                               *)
+G9(e, subj) == /\ subj.fam \in {"fastvec_u64", "fastvec_u8", "fastvec_zst"}
+               /\ e.op = "copy_from" /\ e.ok /\ e.xs = <<>>
+               /\ seqs[e.o] # <<>> /\ e.post.c = seqs[e.o]
+KF9(e, subj) == G9(e, subj) /\ Maintenance(e.o, e.dropped, Elems(e.born)) /\ ObsSeq(seqs'[e.o], e.post)
+
+(* C10-KF10: ValVec32<T> for a zero-sized T: as_slice() / as_mut_slice() / iter() return an     *)
+(* empty slice whatever the length is (`if self.len == 0 || size_of::<T>() == 0 { return &[] }`);*)
+(* len(), get(i), indexing are right.  Trigger: the subject is ValVec32 of a zero-sized type,    *)
+(* the vector is not empty after the call and its slice views are empty.  The deviation reads    *)
+(* the content from the length (all elements of a zero-sized type are equal) and still checks    *)
+(* len, every get(i), the out-of-range get and the length twins.  clone() of such a vector is    *)
+(* empty (second trigger).                                                                        *)
+EmptyClone(e) == e.op = "clone" /\ e.ok /\ seqs[e.o] # <<>> /\ e.post.len = 0
+G10(e, subj) == /\ subj.fam = "valvec32_zst"
+                /\ \/ /\ e.op \in {"push", "pop", "set", "extend_clone", "resize", "clear", "maintenance"}
+                      /\ e.post.len > 0 /\ e.post.c = <<>> /\ e.post.it = <<>>
+                   (* clone() of a non-empty vector of a zero-sized type is empty: with_capacity() gives capacity 0 *)
+                   (* for such a type and clone() copies min(capacity, len) elements                                  *)
+                   \/ EmptyClone(e)
+ObsZst(s, p) ==
+    /\ p.len = Len(s) /\ p.c = <<>> /\ p.it = <<>>
+    /\ p.has_get /\ Len(p.gets) = Len(s) + 1
+    /\ \A i \in 1..Len(p.gets) : p.gets[i] = (IF i <= Len(s) THEN Some(s[i]) ELSE None)
+    /\ p.cap >= Len(s)
+    /\ \A i \in 1..Len(p.alt_len) : p.alt_len[i] = Len(s)
+    /\ \A i \in 1..Len(p.view_names) : p.view_names[i] \in {"as_mut_slice", "iter_mut", "into_iter"} => p.views[i] = <<>>
+    /\ \A i \in 1..Len(p.view_names) : p.view_names[i] \notin {"as_mut_slice", "iter_mut", "into_iter"} => p.views[i] = s
+
+KF10(e, subj) ==
+    /\ G10(e, subj)
+    /\ IF EmptyClone(e)
+       THEN /\ e.o2 \notin DOMAIN seqs /\ Flow(With(e.o2, <<>>), {}, {}, {}, e.dropped)
+            /\ ObsSeq(seqs'[e.o2], e.post) /\ ObsZst(seqs'[e.o], e.src)
+       ELSE /\ LET e2 == [e EXCEPT !.post = [e.post EXCEPT !.c = Zs(e.post.len)]] IN TransV(e2, subj, FALSE)
+            /\ ObsZst(seqs'[e.o], e.post)
+
+(* C10-KF11: CacheAlignedVec<T> for a zero-sized T: the first reserve / push divides by          *)
+(* size_of::<T>() = 0 and panics.  Trigger: that very panic message from push / reserve on the   *)
+(* zero-sized subject.  Nothing changes (the run ends there).                                    *)
+G11(e, subj) == /\ subj.fam = "cachevec_zst"
+                /\ e.op = "panic" /\ e.in \in {"push", "reserve"} /\ e.msg = "attempt to divide by zero"
+KF11(e, subj) == G11(e, subj) /\ UNCHANGED ownvars
 
 (* C10-KF1: ValVec32::set(i, x) overwrites slot i with ptr::write and never runs the       *)
 (* destructor of the element that was there: the old element is leaked.  Trigger: a         *)
@@ -21,6 +125,12 @@ KF1(e, subj) == /\ G1(e, subj)
 
 DevApplies(id, e, subj) ==
     \/ id = "C10-KF1" /\ G1(e, subj)
+    \/ id = "C10-KF9" /\ G9(e, subj)
+    \/ id = "C10-KF10" /\ G10(e, subj)
+    \/ id = "C10-KF11" /\ G11(e, subj)
 KnownDeviation(id, e, subj) ==
     \/ id = "C10-KF1" /\ KF1(e, subj)
+    \/ id = "C10-KF9" /\ KF9(e, subj)
+    \/ id = "C10-KF10" /\ KF10(e, subj)
+    \/ id = "C10-KF11" /\ KF11(e, subj)
 =============================================================================
